@@ -1,10 +1,58 @@
 import DFV.JsonField
+import DFV.Model.C05
 namespace DFV.Drv
-open Lean DFV
+open Lean DFV DFV.C05
 
-/-- driver ops of property C05 (stub: no ops yet) -/
+/-- optional association list: missing / null = `None`, else list of pairs -/
+def optPairs (j : Json) (k : String) : R (Option (List (String × String))) :=
+  match fldOpt j k with
+  | none => pure none
+  | some _ => some <$> pairsOfJson j k
+
+/-- labels and mapping only (the constructor-path ops do not need the data) -/
+def metaJ (f : Fld) : Json :=
+  Json.mkObj [("nvdim", .num (JsonNumber.fromNat f.nvdim)), ("vdims", optStrsJ f.vdims), ("vmap", pairsJ f.vmap)]
+
+/-- driver ops of property C05 -/
 def c05 (op : String) (j : Json) : Option (R Json) :=
   match op with
+  | "grad" => some do
+      let f ← fldOfJson (← fld j "field")
+      pure (resJ fldToJson (grad f))
+  | "div" => some do
+      let f ← fldOfJson (← fld j "field")
+      pure (resJ fldToJson (div f))
+  | "curl" => some do
+      let f ← fldOfJson (← fld j "field")
+      pure (resJ fldToJson (curl f))
+  | "laplace" => some do
+      let f ← fldOfJson (← fld j "field")
+      pure (resJ fldToJson (laplace f))
+  | "comp" => some do
+      let f ← fldOfJson (← fld j "field")
+      let l ← strOfJson (← fld j "label")
+      pure (resJ fldToJson (getComp f l))
+  | "lshift" => some do
+      let a ← fldOfJson (← fld j "a")
+      let b ← fldOfJson (← fld j "b")
+      pure (resJ fldToJson (lshift a b))
+  | "set_vdims" => some do
+      let f ← fldOfJson (← fld j "field")
+      let vd ← optStrsOfJson j "vdims"
+      pure (resJ metaJ (setVdims f vd))
+  | "set_vmap" => some do
+      let f ← fldOfJson (← fld j "field")
+      let mp ← optPairs j "vmap"
+      pure (resJ metaJ (setVmap f mp))
+  | "mk" => some do
+      let mesh ← meshOfJson (← fld j "mesh")
+      let nvdim ← natOfJson (← fld j "nvdim")
+      let vd ← optStrsOfJson j "vdims"
+      let mp ← optPairs j "vmap"
+      pure (resJ metaJ (mkFld mesh nvdim (NDA.const mesh.n []) (NDA.const mesh.n true) vd mp none))
+  | "rdim" => some do
+      let f ← fldOfJson (← fld j "field")
+      pure (Json.mkObj [("ok", listJ (fun d => optStrJ (rDimLast f d)) f.mesh.region.dims)])
   | _ => none
 
 end DFV.Drv
